@@ -1,8 +1,12 @@
 #!/usr/bin/env python3
-"""Regenerates MANIFEST.json from checks.json (single source of truth for what is claimed)."""
+"""Regenerates MANIFEST.json from harness/cNN/check.json (single source of truth for what is claimed)."""
 import json, os, subprocess
 V = os.path.dirname(os.path.abspath(__file__))
-cfg = json.load(open(os.path.join(V, "checks.json")))
+import glob
+cfg = {}
+for _f in sorted(glob.glob(os.path.join(V, "harness", "c[0-9][0-9]*", "check.json"))):
+    _c = json.load(open(_f))
+    cfg[_c["property_id"]] = _c
 props = [json.loads(l) for l in open(os.path.join(V, "properties.jsonl")) if l.strip()]
 hooks = []
 try:
